@@ -38,7 +38,33 @@ func asciiTrim(s string) string {
 	return s
 }
 
+func asciiLower(s string) string {
+	b := []byte(s)
+	for i, c := range b {
+		if c >= 'A' && c <= 'Z' {
+			b[i] = c + 32
+		}
+	}
+	return string(b)
+}
+
+// lowerStable: Unicode case mapping agrees with the model's ASCII lower-casing on s.
+func lowerStable(s string) bool { return strings.ToLower(s) == asciiLower(s) }
+
+func stripNonASCII(s string) string {
+	var b []byte
+	for i := 0; i < len(s); i++ {
+		if s[i] < 0x80 {
+			b = append(b, s[i])
+		}
+	}
+	return string(b)
+}
+
 func stableList(s string) bool {
+	if !lowerStable(s) {
+		return false
+	}
 	for _, p := range strings.Split(s, ",") {
 		if strings.TrimSpace(p) != asciiTrim(p) {
 			return false
@@ -149,6 +175,12 @@ func (g *genCtx) randDomain() string {
 	if r.Chance(1, 4) {
 		d = string(r.BytesFrom("abcxyz", r.Range(1, 4))) + "." + d
 	}
+	switch r.Intn(8) { // letter-case variants (ASCII only: Unicode case mapping is not modelled)
+	case 0:
+		d = strings.ToUpper(stripNonASCII(d))
+	case 1:
+		d = strings.Title(stripNonASCII(d))
+	}
 	return d
 }
 
@@ -232,7 +264,9 @@ func (g *genCtx) dialHost() string {
 			}
 			return d
 		case 3:
-			return strings.ToUpper(d)
+			return strings.ToUpper(stripNonASCII(d))
+		case 6:
+			return strings.ToLower(stripNonASCII(d)) + "."
 		case 4:
 			return d + "."
 		case 5:
@@ -298,6 +332,9 @@ func (g *genCtx) dialHost() string {
 func (g *genCtx) dial() string {
 	r := g.r
 	h := g.dialHost()
+	if !lowerStable(h) {
+		h = stripNonASCII(h)
+	}
 	var addr string
 	switch r.Intn(12) {
 	case 0:
@@ -453,13 +490,18 @@ func specRules(s string) []rule {
 			rs = append(rs, zoneRule(h[1:]))
 			continue
 		}
-		rs = append(rs, rule{kind: "host", name: strings.TrimSuffix(h, ".")})
+		rs = append(rs, hostRule(h))
 	}
 	return rs
 }
 
+// names are compared case-insensitively and without the trailing dot of a rooted spelling
 func zoneRule(z string) rule {
-	return rule{kind: "zone", name: strings.TrimPrefix(strings.TrimSuffix(z, "."), ".")}
+	return rule{kind: "zone", name: strings.TrimPrefix(strings.ToLower(strings.TrimSuffix(z, ".")), ".")}
+}
+
+func hostRule(h string) rule {
+	return rule{kind: "host", name: strings.ToLower(strings.TrimSuffix(h, "."))}
 }
 
 func prefixEq(a, b []byte, n int) bool {
@@ -491,9 +533,9 @@ func specBypass(rules []rule, di dialInfo) (by bool, why string) {
 		return false, "ip-no-match"
 	}
 	// names are compared without the trailing dot of a fully qualified spelling, on both sides
-	name := strings.TrimSuffix(di.host, ".")
+	name := strings.ToLower(strings.TrimSuffix(di.host, "."))
 	if name != di.host {
-		why = "rooted-"
+		why = "folded-"
 	}
 	for _, r := range rules {
 		switch r.kind {
@@ -545,6 +587,10 @@ func exec(ops []string, o *vu.Out) {
 				continue
 			}
 			s := string(b)
+			if !lowerStable(s) {
+				o.Op(op, "bad-op")
+				continue
+			}
 			o.Op(op, vu.Catch(func() string {
 				if t[0] == "addzone" {
 					st.both(func(p *proxy.PerHost) { p.AddZone(s) })
@@ -556,7 +602,7 @@ func exec(ops []string, o *vu.Out) {
 			if t[0] == "addzone" {
 				st.rules = append(st.rules, zoneRule(s))
 			} else {
-				st.rules = append(st.rules, rule{kind: "host", name: strings.TrimSuffix(s, ".")})
+				st.rules = append(st.rules, hostRule(s))
 			}
 		case t[0] == "addip" && len(t) == 2:
 			b, ok := vu.ParseHex(t[1])
@@ -588,7 +634,7 @@ func exec(ops []string, o *vu.Out) {
 		case t[0] == "dial" && len(t) == 6:
 			b, ok := vu.ParseHex(t[2])
 			addr := string(b)
-			if !ok || dialLine(t[1], addr) != strings.Join(t, " ") {
+			if !ok || dialLine(t[1], addr) != strings.Join(t, " ") || !lowerStable(addr) {
 				o.Op(op, "bad-op")
 				continue
 			}
